@@ -26,6 +26,8 @@ def main():
         try:
             prop = engine.load_prop(pid)
         except ImportError:
+            if os.path.exists(os.path.join(HERE, 'ztv', 'props', pid.lower() + '.py')):
+                raise       # the module exists: wrong interpreter (run with /venv/bin/python), never un-claim silently
             prop = None
         if prop is None or not getattr(prop, 'registered', False):
             na.append({'property_id': pid, 'reason': NOT_CLAIMED.get(
